@@ -34,9 +34,11 @@ def add_demo():
     open(p, "w").write(s)
 add_demo()
 pkg = demo_file.split("/")[0]
+# the plugin's main.rs is the binary crate `watchtower-client`: its demo module runs with --bins
+TGT = "--bins" if demo_file.endswith("main.rs") else "--lib"
 res = {"seeded_id": sid, "property": prop, "demo_file": demo_file, "tests": tests, "steps": []}
 def run_tests(filter_):
-    rc, o = sh("cargo test --offline -p %s --lib %s 2>&1 | tail -40" % (pkg, filter_), cwd=WT)
+    rc, o = sh("cargo test --offline -p %s %s %s 2>&1 | tail -40" % (pkg, TGT, filter_), cwd=WT)
     m = re.search(r"test result: (\w+)\. (\d+) passed; (\d+) failed", o)
     return (m.group(1), int(m.group(2)), int(m.group(3))) if m else ("?", -1, -1), o
 flt = tests[0] if len(tests) == 1 else ""
@@ -49,7 +51,7 @@ r1, o1 = run_tests(" ".join(tests[:1]))
 res["steps"].append({"what": "demo with the change", "result": r1})
 r2, o2 = run_tests("")
 failed_names = re.findall(r"^test (\S+) \.\.\. FAILED", o2, re.M) if False else []
-rcf, of = sh("cargo test --offline -p %s --lib 2>&1 | grep -E '^test .* FAILED' | head" % pkg, cwd=WT)
+rcf, of = sh("cargo test --offline -p %s %s 2>&1 | grep -E '^test .* FAILED' | head" % (pkg, TGT), cwd=WT)
 failed_names = re.findall(r"test (\S+) \.\.\. FAILED", of)
 res["steps"].append({"what": "whole %s lib suite with the change (+demo)" % pkg, "result": r2, "failed": failed_names})
 ok = r0[0] == "ok" and r0[1] >= 1 and r1[2] >= 1 and all(any(t in f for t in tests) for f in failed_names)
